@@ -44,12 +44,14 @@ def parseMantissa (m : Str) : Option Rat :=
 def castFloat (s : Str) : R Rat :=
   if hasOdd s then .error .unsupported else
   let (neg, body) := splitSign s
-  let lb := lower body
-  if lb == "inf".toList || lb == "nan".toList || lb == "infinity".toList then .error .unsupported else
   let mant := body.takeWhile (fun c => c != 'e' && c != 'E')
   let rest := body.dropWhile (fun c => c != 'e' && c != 'E')
   match parseMantissa mant with
-  | none => .error .fail
+  | none =>
+    -- not a decimal number: `inf`, `nan`, `infinity` are accepted by Python but not modelled
+    let lb := lower body
+    if lb == "inf".toList || lb == "nan".toList || lb == "infinity".toList then .error .unsupported
+    else .error .fail
   | some m =>
     let signed : Rat := if neg then -m else m
     match rest with
